@@ -33,6 +33,7 @@ type c19Plan struct {
 	LogReq  []string `json:"log_req"`
 	LogResp []string `json:"log_resp"`
 	Reqs    []c19Req `json:"reqs"`
+	Mount   bool     `json:"mount,omitempty"` // every service sits below /app (prefix stripped before forwarding, the CLI default)
 }
 
 var c19Endings = []string{"served", "served", "served", "not-found", "paused-out", "stopped", "redirect", "tls-refused", "target-down", "target-silent",
@@ -42,6 +43,7 @@ func c19Gen(t *rapid.T) c19Plan {
 	p := c19Plan{}
 	p.LogReq = rapid.SampledFrom([][]string{nil, {"X-Custom_Header"}, {"accept", "x-absent"}, {"Cookie", "X-UTF8", "User-Agent"}}).Draw(t, "log-req")
 	p.LogResp = rapid.SampledFrom([][]string{nil, {"x-vf-target"}, {"Set-Cookie", "X-Absent"}, {"content-type", "cache-control"}}).Draw(t, "log-resp")
+	p.Mount = rapid.IntRange(0, 2).Draw(t, "mount") == 0
 	n := rapid.IntRange(1, 5).Draw(t, "nreqs")
 	for i := 0; i < n; i++ {
 		rq := c19Req{Ending: rapid.SampledFrom(c19Endings).Draw(t, "ending")}
@@ -83,8 +85,14 @@ func c19Run(t *testing.T, p c19Plan) (res vfResult) {
 			to.LogRequestHeaders = append([]string(nil), p.LogReq...)
 			to.LogResponseHeaders = append([]string(nil), p.LogResp...)
 			to.ResponseTimeout = 400 * time.Millisecond
+			if p.Mount {
+				so.PathPrefixes, so.StripPrefix = []string{"/app"}, true
+			}
 			if mod != nil {
 				mod(&so, &to)
+			}
+			if so.TLSEnabled {
+				so.PathPrefixes, so.StripPrefix = nil, false // TLS belongs to the service on the root path
 			}
 			so.Normalize()
 			if err := vfDeploy(r, name, []string{target}, so, to, 5*time.Second, time.Second); err != nil {
@@ -202,7 +210,11 @@ func c19Run(t *testing.T, p c19Plan) (res vfResult) {
 				main.closeConns()
 				synctest.Wait()
 			}
-			reqTarget := rq.Path + rq.Query
+			mount := ""
+			if p.Mount && rq.Ending != "not-found" && host != "secure.test" {
+				mount = "/app"
+			}
+			reqTarget := mount + rq.Path + rq.Query
 			var sb strings.Builder
 			fmt.Fprintf(&sb, "%s %s HTTP/1.1\r\nHost: %s\r\n", method, reqTarget, host)
 			for _, hd := range hdrs {
@@ -286,7 +298,7 @@ func c19Run(t *testing.T, p c19Plan) (res vfResult) {
 				}
 			}
 			u, _ := url.ParseRequestURI(reqTarget)
-			wantPath, wantQuery := rq.Path, strings.TrimPrefix(rq.Query, "?")
+			wantPath, wantQuery := mount+rq.Path, strings.TrimPrefix(rq.Query, "?")
 			if u != nil {
 				wantPath, wantQuery = u.Path, u.RawQuery
 			}
